@@ -119,20 +119,23 @@ func AddFileHelpers(f *value.FunctionGenerator) {
 			return nil, errors.New("addIf requires a bool, a name, a unit and a function")
 		}).SetMethodDescription("cond", "name", "unit", "func", "Creates a column in the data file if the condition is true."),
 		"timeIsDate": value.MethodAtType(0, func(data *Data, st funcGen.Stack[value.Value]) (value.Value, error) {
-			data.TimeIsDate = true
-			return data, nil
+			n := *data
+			n.TimeIsDate = true
+			return &n, nil
 		}).SetMethodDescription("The time function returns a date given in seconds since 01.01.1970."),
 		"timeFormat": value.MethodAtType(1, func(data *Data, st funcGen.Stack[value.Value]) (value.Value, error) {
 			if format, ok := st.Get(1).(value.String); ok {
-				data.TimeFormat = string(format)
-				return data, nil
+				n := *data
+				n.TimeFormat = string(format)
+				return &n, nil
 			}
 			return nil, errors.New("timeFormat requires a format string")
 		}).SetMethodDescription("format", "Sets the time format."),
 		"dateFormat": value.MethodAtType(1, func(data *Data, st funcGen.Stack[value.Value]) (value.Value, error) {
 			if format, ok := st.Get(1).(value.String); ok {
-				data.DateFormat = string(format)
-				return data, nil
+				n := *data
+				n.DateFormat = string(format)
+				return &n, nil
 			}
 			return nil, errors.New("dateFormat requires a format string")
 		}).SetMethodDescription("format", "Sets the date format."),
@@ -245,7 +248,8 @@ func (d *Data) GetType() value.Type {
 
 func (d *Data) Add(content DataContent) *Data {
 	var n = *d
-	n.DataContent = append(n.DataContent, content)
+	// clip the capacity: two columns added to the same data file must not share a slot
+	n.DataContent = append(n.DataContent[:len(n.DataContent):len(n.DataContent)], content)
 	return &n
 }
 
